@@ -45,6 +45,9 @@ CLAIMED = {
  "C13": ("5 (C13)",
    "Props/C13.v: creation succeeds only with uniform awareness of every timing entry, start and stop; any mixed value is rejected by the call itself, always with SchedulerError (the model's datetime operations do return TypeError on mixing); the constructor rejects foreign-timezone jobs; no operation on a reachable state ever raises TypeError; offset invariance: same recurring instants + same reference instant give the same due instants at creation and after every rescheduling (with/without skip_missing). Tied by the awareness stream (random naive/aware assignments to scheduler, entries, start, stop, all calls and the constructor).",
    N_SEQ + "; typeguard acceptance of timing types is an oracle", T_SEQ),
+ "C20": ("3.7, 5 (C20)",
+   "Props/C20.v: for ALL strings and widths >= 1 the abbreviation helper returns min(len,w) characters, leaves a fitting string unchanged and otherwise keeps w-1 characters plus the '#' marker; every job row is exactly as wide as the header row for arbitrary cell contents in all four table variants; the table is heading + true job count + header + dashes + exactly one row per job in ascending due-time order. Tied by re-translation of str_cutoff (Tie lemma) and by comparing str(scheduler), str(job) and str_cutoff of the real code with the extracted model over all callable kinds (def, lambda, builtin, bound/static/class method, partial, callable instance, class; asyncio variants), aliases, weights, attempt counts, timezone names and due distances, both front ends.",
+   "Coq kernel; extraction + driver; translator; CPython's rendering of datetime/timedelta/float/tzname and callable attributes enters the model as strings (modelled not verified); 'never raises' for the callable kinds is exhaustive testing of a finite table", T_TIE),
  "C19": ("5 (C19)",
    "Props/C19.v: jobs own their arguments/keyword mapping/tags as values (abstract spec); creation stores exactly what was given, no operation changes a job's configuration, every invocation passes exactly those values. That the implementation refines this (insulation from the caller's later mutations) is checked by the correspondence: the harness mutates the passed dict, the passed tag set and the set returned by .tags after every scheduling call.",
    N_SEQ + "; dict.copy()/set.copy() modelled as value ownership", T_SEQ),
